@@ -41,11 +41,37 @@ def verus_version():
         return 'unknown'
 
 
-def generate(tag=None):
+def generate(tag=None, demote=()):
     tag = tag if tag is not None else os.environ.get('VERIF_GEN_TAG', '')
     out = os.path.join(VERIF, 'gen', 'lzma_rs_verus%s.rs' % tag)
-    rep = gen.generate(out)
+    rep = gen.generate(out, demote=demote)
     return out, rep
+
+
+def tool_error_functions(diags, linemap, genfile):
+    """functions (under contract) that contain the span of a non-verification (front-end) error"""
+    base = os.path.basename(genfile)
+    fns = set()
+    other = False
+    for d in diags:
+        if d.get('level') != 'error':
+            continue
+        msg = d.get('message', '')
+        if msg.startswith('aborting due to'):
+            continue
+        if VERIF_FAIL_MSG.search(msg) or SAFETY_MSG.search(msg) or RLIMIT_MSG.search(msg):
+            continue
+        hit = False
+        for s in d.get('spans', []):
+            if os.path.basename(s.get('file_name', '')) != base:
+                continue
+            md = linemap.get(s['line_start'])
+            if md and md.get('fn'):
+                fns.add(md['fn'])
+                hit = True
+        if not hit:
+            other = True
+    return fns, other
 
 
 def _run(genfile, seed, threads):
@@ -168,9 +194,13 @@ def classify(diags, linemap, genfile):
             for ln in range(s['line_start'], min(s.get('line_end', s['line_start']), s['line_start'] + 40) + 1):
                 md = linemap.get(ln) or linemap.get(str(ln))
                 if md and md.get('obligation') and md.get('kind') in ('spec', 'loop_inv'):
-                    obligation = md['obligation']
-                    clause_props = md.get('clause_props')
-                    clause_text = md.get('text')
+                    if obligation and md['obligation'] not in obligation.split('+'):
+                        obligation = obligation + '+' + md['obligation']
+                        clause_props = sorted(set(clause_props or []) | set(md.get('clause_props') or []))
+                    elif not obligation:
+                        obligation = md['obligation']
+                        clause_props = md.get('clause_props')
+                        clause_text = md.get('text')
         if pline:
             line = pline
             for s in prim:
@@ -186,9 +216,72 @@ def classify(diags, linemap, genfile):
             if outside or (callee_md and callee_md.get('kind') == 'prelude'):
                 kind = 'safety'
         failures.append({'fn': fn, 'module': module, 'kind': kind, 'msg': msg, 'line': line, 'text': text,
+                         'span_lines': [(s['line_start'], s.get('line_end', s['line_start'])) for s in spans],
                          'obligation': obligation, 'clause_props': clause_props, 'clause_text': clause_text,
                          'rendered': d.get('rendered', '')[:3000]})
     return failures, tool_errors
+
+
+def narrow(genfile, failures, linemap, timeout=900):
+    """A failed clause that carries several obligation tags (a conjunction under one binder) is narrowed to
+    the failing conjuncts with Verus' --expand-errors on that one function.  If the expansion gives nothing
+    usable the union of the tags is kept (every tagged property is then reported)."""
+    base = os.path.basename(genfile)
+    groups = {}
+    for f in failures:
+        if f.get('obligation') and '+' in f['obligation'] and f.get('fn') and f['kind'] == 'functional':
+            groups.setdefault(f['fn'], []).append(f)
+    for fn, fs in groups.items():
+        mod = fs[0].get('module') or ''
+        tail = re.sub(r'@\w+::', '::', fn)
+        if mod and tail.startswith(mod + '::'):
+            tail = tail[len(mod) + 2:]
+        cmd = ['verus', genfile, '--cfg', 'feature="stream"', '--cfg', 'feature="raw_decoder"', '--no-lifetime',
+               '--triggers-mode', 'silent', '--multiple-errors', '8', '--expand-errors', '--error-format=json',
+               '--verify-function', '*' + tail]
+        cmd += ['--verify-only-module', mod] if mod and mod not in ('spec', 'prelude') else ['--verify-root']
+        try:
+            p = subprocess.run(cmd, capture_output=True, text=True, cwd=VERIF, timeout=timeout)
+        except subprocess.TimeoutExpired:
+            continue
+        leaf = []
+        for line in p.stderr.splitlines():
+            line = line.strip()
+            if not line.startswith('{'):
+                continue
+            try:
+                d = json.loads(line)
+            except Exception:
+                continue
+            if d.get('message', '').startswith('diagnostics via expansion'):
+                for s in d.get('spans', []):
+                    if os.path.basename(s.get('file_name', '')) == base:
+                        leaf.append((s['line_start'], s.get('line_end', s['line_start'])))
+        for f in fs:
+            obs, props, ok = [], set(), True
+            mine = [(a, b) for (a, b) in leaf if any(lo <= a <= hi for (lo, hi) in f['span_lines'])]
+            if not mine:
+                continue
+            for (a, b) in mine:
+                tagged = None
+                for ln in range(a, b + 1):
+                    md = linemap.get(ln) or linemap.get(str(ln))
+                    if md and md.get('obligation') and md.get('kind') in ('spec', 'loop_inv'):
+                        tagged = md
+                        break
+                if tagged is None:
+                    ok = False
+                    break
+                if tagged['obligation'] not in obs:
+                    obs.append(tagged['obligation'])
+                    props |= set(tagged.get('clause_props') or [])
+                    f.setdefault('narrowed_text', tagged.get('text'))
+            if ok and obs:
+                f['obligation_union'] = f['obligation']
+                f['obligation'] = '+'.join(obs)
+                f['clause_props'] = sorted(props)
+                f['clause_text'] = f.get('narrowed_text') or f.get('clause_text')
+    return failures
 
 
 def overlay_index(rep):
